@@ -164,7 +164,6 @@ Proof.
     destruct (q_mode q); destruct (src_next e (c_sh c)) as [xv|].
     all: try (apply Hkeep; discriminate).
     all: try (destruct (N.of_nat (length (xv :: got)) =? q_n q); apply Hkeep; discriminate).
-    destruct got; apply Hkeep; discriminate.
   - destruct Hc as (o & older & Hp & Hcr). cbn [entry_of req_of] in Hcr.
     rewrite (istep_setf e c t q b got Hpc). destruct (q_mode q); [apply (Hfin _ _ _ _ o older Hp Hcr); discriminate|apply Hkeep; discriminate|apply Hkeep; discriminate].
   - destruct Hc as (o & older & Hp & Hcr). cbn [entry_of req_of] in Hcr.
